@@ -13,6 +13,17 @@ Definition lookup_ty (T : string) : option anyty :=
   if is "varint" then Some (AnyTy (fun _ => dec_varint) enc_varint sh_N p_N rl_varint)
   else if is "u8" then Some (AnyTy (fun _ => dec_u8) enc_u8 sh_N p_N rl_u8)
   else if is "u32" then Some (AnyTy (fun _ => dec_u32) (enc_uint 4) sh_N p_N rl_u32)
+  else if is "u16" then Some (AnyTy (fun _ => dec_u16) (enc_uint 2) sh_N p_N (fun _ => 2))
+  else if is "u64" then Some (AnyTy (fun _ => dec_u64) (enc_uint 8) sh_N p_N (fun _ => 8))
+  else if is "i8" then Some (AnyTy (fun _ => dec_u8) enc_u8 sh_N p_N (fun _ => 1))
+  else if is "i16" then Some (AnyTy (fun _ => dec_u16) (enc_uint 2) sh_N p_N (fun _ => 2))
+  else if is "i32" then Some (AnyTy (fun _ => dec_u32) (enc_uint 4) sh_N p_N (fun _ => 4))
+  else if is "i64" then Some (AnyTy (fun _ => dec_u64) (enc_uint 8) sh_N p_N (fun _ => 8))
+  else if is "bool" then Some (AnyTy (fun _ => dec_bool) enc_bool (fun b => [if b then "1" else "0"])
+                                      (fun t => match t with
+                                                | w :: r => if String.eqb w "1" then Some (true, r)
+                                                            else if String.eqb w "0" then Some (false, r) else None
+                                                | [] => None end) (fun _ => 1))
   else if is "hash" then Some (AnyTy (fun _ => dec_hash) enc_arr sh_b p_b rl_arr)
   else if is "hash8" then Some (AnyTy (fun _ => dec_hash8) enc_arr sh_b p_b rl_arr)
   else if is "key64" then Some (AnyTy (fun _ => dec_key64) enc_arr sh_b p_b rl_arr)
